@@ -189,6 +189,26 @@ def sweep(ctx, n):
                 want = np.concatenate([o._orientation[j].apply(np.array(o.vertices)) + o._position[j] for j in range(len(o._position))])
                 if any(np.min(np.linalg.norm(V - w, axis=1)) > 1e-9 for w in want) or any(np.min(np.linalg.norm(want - q, axis=1)) > 1e-9 for q in V):
                     bad("vertex-off-surface:Tetrahedron", "the drawn corners of a Tetrahedron are not its corners at its pose")
+        # a show() call that FAILS while the traces are built (a user model3d trace the backend refuses): the object — style included —
+        # is as it was, and the next show() draws it where it is
+        for trial in range(3):
+            nps = np.random.default_rng(rng.randrange(2**31))
+            o = [magpy.magnet.Cuboid(polarization=(0, 0, 1), dimension=(1, 1, 1)), magpy.current.Circle(current=1, diameter=1), magpy.Sensor()][trial]
+            o.position = np.cumsum(nps.uniform(1, 2, (3, 3)), axis=0)
+            o.style.model3d.add_trace(backend="generic", constructor="scatter3d", kwargs={"x": [0, 1], "y": [0, 1]})  # no z: refused at draw time
+            top = o if trial != 1 else magpy.Collection(o)
+            objs = all_objs([top])
+            before, sid = [snap_obj(x) for x in objs], id(o.style)
+            raised = None
+            try:
+                magpy.show(top, backend="plotly", return_fig=True, style_color="blue", style_path_frames=[0])
+            except Exception as e:  # noqa: BLE001
+                raised = type(e).__name__
+            done += 1
+            kinds["failed-show"] = kinds.get("failed-show", 0) + 1
+            if raised is not None and ([snap_obj(x) for x in objs] != before or id(o.style) != sid):
+                bad("show-mutates:failed-show", f"show() raised {raised} while drawing and left the object changed (style object replaced: {id(o.style) != sid})",
+                    {"class": type(o).__name__, "raised": raised})
         # explicit frame lists, including indices beyond the path length (an object shorter than the index stays at its last pose)
         for trial in range(max(3, n // 6)):
             nps = np.random.default_rng(rng.randrange(2**31))
